@@ -45,8 +45,11 @@ claim('C12', 'Coq theorems about definitions regenerated from the live library (
 claim('C15', 'Coq theorems (involutions, shortcut = definition, finite sweeps lifted by forallb_forall) + correspondence + definition oracle',
       'XOR: involution for every key and data, single-byte and all-zero shortcuts equal the cyclic definition, ProcessXor build/parse are the '
       'transform of the inner bytes / of the stream. Byte and bit order: involutions, bit reversal per byte (256 cases, kernel). Rotation: '
-      'rotl8 inverse for every amount; rejection of non-multiples; amounts cancel. The multi-byte rotation branches and the compression '
-      'codecs are decided by the oracle (big-integer rotation per group, amounts -64..64 x groups 1..8) and correspondence.', 'DESIGN.md 6/C15')
+      'rot_group_spec - the bits of a rotated group are the bits of the group rotated left by the amount, for EVERY amount and group size, all '
+      'three code branches (finite sweep of the one-byte combiner lifted to lists); hence rot_group_inverse / rotate_left_inverse and '
+      'processrotl_parse_undoes_build (parse undoes build for every integer amount and group); rejection of non-multiples. The compression '
+      'codecs are decided by the oracle; rotation is additionally compared with a big-integer rotation per group (amounts -64..64 x groups '
+      '1..8) on the library and by correspondence.', 'DESIGN.md 6/C15')
 claim('C10', 'Coq theorems over arbitrary field lists (bit/byte functions) and every width (interpreter level) + two-path correspondence + big-integer oracle',
       'bits_fold_app / bits_fold_fields / pack_fields_bytes / unpack_fields_bits: for ANY sequence of field widths summing to a multiple of 8 '
       'the packed bytes are the big-endian digits of the MSB-first concatenation of the patterns, and parse inverts it (no bound on widths or '
